@@ -668,4 +668,85 @@ def _layouts_bound_to_locations(ctx):
                                       f"[{mode_name(dt, sc)}]", info)
 
 
-DIRECTED = {"layouts-bound-to-locations": _layouts_bound_to_locations, "forbidden-unknown-keys-whatever-the-count": _forbidden_unknown_keys_whatever_the_count, "extra-out-with-a-list-root": _extra_out_with_a_list_root, "generic-alias-as-single-predicate": _generic_alias_as_single_predicate, "omit-default-of-empty-factories": _omit_default_of_empty_factories, "map-reaches-every-descendant": _map_reaches_every_descendant, "enum-class-as-single-predicate": _enum_class_as_single_predicate, "omit-default-unhashable-default": _omit_default_unhashable, "collected-extras-known-branches": _collected_extras_known_branches}
+@dataclasses.dataclass
+class _PropM:
+    a: int
+    items_: typing.List[int]
+    note: str = "n"
+
+    @property
+    def total_sum(self) -> int:
+        return sum(self.items_) + self.a
+
+    @property
+    def label_(self) -> typing.List[str]:
+        return [self.note] * 2
+
+
+@dataclasses.dataclass
+class _PropTwin:
+    a: int
+    items_: typing.List[int]
+    note: str = "n"
+    total_sum: int = dataclasses.field(kw_only=True)    # required like a property (no default that omit_default could drop), yet declared last
+    label_: typing.List[str] = dataclasses.field(kw_only=True)
+
+
+def _properties_as_output_fields(ctx):
+    """with_property(Model, name) makes a property an output field: every name_mapping option treats it like a declared field - compared with
+    a twin model in which the properties are ordinary fields holding the same values (map, name_style, trim, skip, only, as_list, omit_default,
+    nested paths), and the loader ignores it."""
+    from adaptix import P, name_mapping, with_property  # noqa: PLC0415
+
+    options = [("default", {}), ("camel", {"name_style": NameStyle.CAMEL}), ("upper", {"name_style": NameStyle.UPPER_SNAKE}), ("map-prop", {"map": {"total_sum": "T"}}),
+               ("map-prop-nested", {"map": {"total_sum": ("meta", "sum"), "label_": ("meta", "labels")}}), ("map-field", {"map": {"a": "A"}}), ("skip-prop", {"skip": ["total_sum"]}),
+               ("skip-field", {"skip": ["note"]}), ("only", {"only": ["a", "items_", "label_"]}), ("no-trim", {"trim_trailing_underscore": False}), ("as_list", {"as_list": True}),
+               ("omit_default", {"omit_default": True}), ("omit+camel", {"omit_default": True, "name_style": NameStyle.CAMEL}), ("map-list-index", {"map": {"total_sum": ("arr", 1), "a": ("arr", 0)}}),
+               ("by-type", {"map": [(int, "an_int_" )]}), ("skip-by-type", {"skip": [typing.List[str]]})]
+    values = [(1, [2, 3], "n"), (0, [], "x"), (5, [0], "")]
+    turn = 0
+    for oname, opts in options:
+        for props in (("total_sum", "label_"), ("label_", "total_sum"), ("total_sum",)):
+            turn += 1
+            dt, sc = MODES[turn % len(MODES)]
+            recipe = [with_property(_PropM, p, {'total_sum': int, 'label_': typing.List[str]}[p]) for p in props] + [name_mapping(_PropM, **opts)]   # explicit types: this module's annotations are strings
+            twin_skip = [p for p in ("total_sum", "label_") if p not in props]
+            topts = dict(opts)   # one provider for the twin: options of an earlier name_mapping would shadow the later one's
+            if twin_skip and "only" in topts:
+                topts["only"] = [x for x in topts["only"] if x not in twin_skip]
+            elif twin_skip:
+                topts["skip"] = [*topts.get("skip", []), *twin_skip]
+            twin_recipe = [name_mapping(_PropTwin, **topts)]
+            r, rt = make_retort(dt, sc, recipe), make_retort(dt, sc, twin_recipe)
+            for a, items, note in values:
+                m = _PropM(a, list(items), note)
+                fields = {"a": a, "items_": list(items), "note": note, "total_sum": m.total_sum, "label_": m.label_}
+                if len(props) > 1 and "as_list" in opts:
+                    continue   # the relative order of several properties is not documented: list layouts only with one property
+                twin = _PropTwin(**fields)
+                got, want = attempt(r.dump, m), attempt(rt.dump, twin)
+                ctx.evaluated(("with-property", oname, props, dt.name, sc, repr((a, items, note))), nontrivial=True)
+                ctx.count("property_dumps")
+                info = {"options": oname, "properties": list(props), "mode": mode_name(dt, sc), "value": repr(m)}
+                if want.kind != "ok":
+                    ctx.count("property_twin_unusable")
+                    continue
+                if got.kind != "ok" or not _prop_eq(got.value, want.value):
+                    ctx.violation("dump-layout-mismatch:property-as-output-field", f"{oname}, properties {props}: dump gave {got!r:.200}, the twin with ordinary fields gives {want.value!r:.200} [{mode_name(dt, sc)}]", info)
+                    continue
+                if "as_list" in opts or oname in ("skip-field", "only", "map-list-index"):
+                    continue
+                back = attempt(r.load, copy.deepcopy(got.value), _PropM)
+                if back.kind != "ok" or back.value != m:
+                    ctx.violation("wrong-object:property-as-output-field", f"{oname}, properties {props}: load of its own dump {got.value!r:.160} gave {back!r:.200} [{mode_name(dt, sc)}]", info)
+
+
+def _prop_eq(a, b):
+    if isinstance(a, dict) and isinstance(b, dict):
+        return a.keys() == b.keys() and all(_prop_eq(a[k], b[k]) for k in a)
+    if isinstance(a, (list, tuple)) and isinstance(b, (list, tuple)):
+        return len(a) == len(b) and all(_prop_eq(x, y) for x, y in zip(a, b))
+    return strict_eq(a, b)
+
+
+DIRECTED = {"properties-as-output-fields": _properties_as_output_fields, "layouts-bound-to-locations": _layouts_bound_to_locations, "forbidden-unknown-keys-whatever-the-count": _forbidden_unknown_keys_whatever_the_count, "extra-out-with-a-list-root": _extra_out_with_a_list_root, "generic-alias-as-single-predicate": _generic_alias_as_single_predicate, "omit-default-of-empty-factories": _omit_default_of_empty_factories, "map-reaches-every-descendant": _map_reaches_every_descendant, "enum-class-as-single-predicate": _enum_class_as_single_predicate, "omit-default-unhashable-default": _omit_default_unhashable, "collected-extras-known-branches": _collected_extras_known_branches}
